@@ -488,8 +488,11 @@ def xstack_effect(opcode, opc, oparg: int = 0, jump=None):
         return -oparg
     if opname == "BUILD_MAP" and version_tuple >= (3, 5):
         return 1 - (2 * oparg)
-    elif opname in ("UNPACK_SEQUENCE", "UNPACK_EX") and version_tuple >= (3, 0):
+    elif opname == "UNPACK_SEQUENCE" and version_tuple >= (3, 0):
         return push + oparg
+    elif opname == "UNPACK_EX" and version_tuple >= (3, 0):
+        # low byte: targets before the starred one; high byte: targets after it
+        return (oparg & 0xFF) + (oparg >> 8)
     elif opname in (
         "BUILD_LIST",
         "BUILD_SET",
@@ -497,34 +500,34 @@ def xstack_effect(opcode, opc, oparg: int = 0, jump=None):
         "BUILD_TUPLE",
     ) and version_tuple >= (3, 12):
         return 1 - oparg
-    elif opname in ("BUILD_SLICE") and version_tuple <= (2, 7):
+    elif opname == "BUILD_SLICE":
         return -2 if oparg == 3 else -1
+    elif opname == "FORMAT_VALUE":
+        # (oparg & FVS_MASK) == FVS_HAVE_SPEC: a format spec is popped as well
+        return -1 if (oparg & 4) == 4 else 0
     elif opname == "LOAD_ATTR" and version_tuple >= (3, 12):
         return 1 if oparg & 1 else 0
-    elif opname == "MAKE_FUNCTION":
-        if version_tuple >= (3, 5):
+    elif opname == "MAKE_FUNCTION" and (3, 5) <= version_tuple < (3, 13):
+        if version_tuple == (3, 5):
             if 0 <= oparg <= 10:
-                if version_tuple == (3, 5):
-                    return [-1, -2, -3, -3, -2, -3, -3, -4, -2, -3, -3, -4][oparg]
-                elif (3, 6) <= version_tuple < (3, 11):
-                    return [-1, -2, -2, -3, -2, -3, -3, -4, -2, -3, -3, -4][oparg]
-                elif 0 <= oparg <= 2:
-                    return [0, -1, -1][oparg]
-                else:
-                    return None
+                return [-1, -2, -3, -3, -2, -3, -3, -4, -2, -3, -3, -4][oparg]
             else:
                 return None
+        elif version_tuple < (3, 11):
+            # code and qualified name, plus one item for each flag bit set
+            return -1 - (oparg & 1 != 0) - (oparg & 2 != 0) - (oparg & 4 != 0) - (oparg & 8 != 0)
+        else:
+            # from 3.11 the qualified name is no longer on the stack
+            return 0 - (oparg & 1 != 0) - (oparg & 2 != 0) - (oparg & 4 != 0) - (oparg & 8 != 0)
     elif opname == "CALL" and version_tuple >= (3, 12):
         return -oparg - 1
     elif opname == "CALL_KW":
         return -2 - oparg
-    elif opname == "CALL_FUNCTION_EX":
-        if (3, 5) <= version_tuple < (3, 11):
+    elif opname == "CALL_FUNCTION_EX" and version_tuple >= (3, 5):
+        if version_tuple < (3, 11):
             return -2 if oparg & 1 else -1
-        elif 0 <= oparg <= 3:
-            return -3 if oparg & 1 else -2
         else:
-            return None
+            return -3 if oparg & 1 else -2
     elif opname in (
         "INSTRUMENTED_LOAD_SUPER_ATTR",
         "LOAD_SUPER_ATTR",
